@@ -1,41 +1,22 @@
 package ergo
 
-func zzDbgMirror() {
-	g, _ := zzC07Store("2;Results=0;RDeps=0;Tombstones=0;constkeys=Tasks,Meta,Deps")
-	root := zzWorldInit(g)
-	opts := GlobalOptions{StartDir: root}
-	dir, derr := ergoDir(opts)
-	zzAssume(derr == nil)
-	err := writeLinkEvent(dir, opts, "link", zzString("from"), zzString("to"))
-	g2, perr := zzPost()
-	if err != nil || perr != nil {
-		return
+import "unicode/utf8"
+
+func zzDbg_Abbrev() {
+	s := zzBytes("title", 6)
+	n := zzInt("maxLen")
+	zzAssume(n >= 2 && n <= 5)
+	zzAssume(zzUTF8Valid(s))
+	zzAssume(len(s) > n)
+	p := s[:n-1]
+	zzAssert(len(p) == n-1, "dbg: prefix length")
+	r := p + "…"
+	zzAssert(len(r) == n+2, "dbg: result length")
+	zzAssert(r[len(r)-1] == 0xa6 && r[len(r)-2] == 0x80 && r[len(r)-3] == 0xe2, "dbg: tail bytes")
+	zzAssert(r[0] == s[0], "dbg: first byte")
+	if s[0] < 0x80 && n == 2 {
+		zzAssert(zzUTF8Valid(r), "dbg: spec valid for ascii+ellipsis")
+		zzAssert(utf8.ValidString(r), "dbg: lib valid for ascii+ellipsis")
 	}
-	for id, t := range g2.Tasks {
-		for _, d := range t.Deps {
-			zzAssert(zzEdge(g2, id, d), "dbg1: every listed dep is an edge")
-			o := g2.Tasks[d]
-			if o != nil {
-				found := false
-				for _, r := range o.RDeps {
-					if r == id {
-						found = true
-					}
-				}
-				zzAssert(found, "dbg2: dep's rdeps contain me")
-			}
-		}
-		for _, r := range t.RDeps {
-			zzAssert(zzEdge(g2, r, id), "dbg3: every listed rdep is an edge")
-		}
-		for d := range g2.Deps[id] {
-			found := false
-			for _, x := range t.Deps {
-				if x == d {
-					found = true
-				}
-			}
-			zzAssert(found, "dbg4: every edge is listed in deps")
-		}
-	}
+	zzReach("end")
 }
